@@ -49,7 +49,7 @@ ASSUMPTIONS = [
 REQUIRED_CATEGORIES = [
     "charnock_elements", "charnock_nan_in_nan_out", "charnock_iterations_needed", "charnock_viscous",
     "charnock_monotone_pairs", "charnock_scalar_input", "charnock_dataarray_input",
-    "janssen_cases", "janssen_single_root_checked", "janssen_scan_not_evaluable", "janssen_wind_opposing",
+    "janssen_cases", "janssen_single_root_checked", "janssen_wind_opposing",
     "janssen_finite_depth", "janssen_ustar_input",
 ]
 
@@ -273,11 +273,11 @@ HS = [0.5, 2.0, 5.0]
 FP = [0.08, 0.15, 0.3]
 WIDTHS = [15.0, 40.0]
 DEPTHS = [float("inf"), 20.0, 5.0]
-# C08 winds; u* = 2 m/s is added because stress() is not evaluable on all of (e^-20, 1) for u* < 1.66 m/s or
+# C08 winds; u* = 2 and 2.5 m/s are added because stress() is not evaluable on all of (e^-20, 1) for u* < 1.66 m/s or
 # U10 < 9.6 m/s (the WAM tail-stress Newton solve raises when z0 g/u*^2 > 3.58), so that those winds never
 # have a decidable premise; the thorough tier adds U10 = 15 and 30 m/s for the same reason.
 U10S = {"quick": [1.0, 5.0, 10.0, 20.0, 40.0], "thorough": [1.0, 5.0, 10.0, 15.0, 20.0, 30.0, 40.0]}
-USTARS = [0.1, 0.5, 1.5, 2.0]
+USTARS = [0.1, 0.5, 1.5, 2.0, 2.5]
 OFFSETS = [30.0 * k for k in range(12)]
 NSCAN = 200
 LOGZ = np.linspace(-20.0, 0.0, NSCAN + 2)[1:-1]
@@ -312,7 +312,9 @@ def raised_cosine(d, mean, width):
 def janssen_axes(tier):
     if tier == "quick":
         return {"grids": ["g20x24"], "shapes": ["jonswap"], "means": [45.0]}
-    return {"grids": ["g12x16", "g20x24"], "shapes": ["jonswap", "pm"], "means": [45.0 * k for k in range(8)]}
+    # mean directions: two on the direction grids (rotated copies of each other up to rounding, C09) and two off the
+    # grids (asymmetric discretisation of the directional distribution)
+    return {"grids": ["g12x16", "g20x24"], "shapes": ["jonswap", "pm"], "means": [0.0, 45.0, 100.0, 235.0]}
 
 
 def units(tier):
@@ -325,8 +327,13 @@ def units(tier):
         for sh in ax["shapes"]:
             for dep in DEPTHS:
                 for w in WIDTHS:
-                    us.append({"name": f"janssen:{g}:{sh}:depth={dep}:width={w}", "kind": "janssen", "grid": g,
-                               "shape": sh, "depth": dep, "width": w, "means": ax["means"], "cost": 50})
+                    # thorough: one unit per Hs as well, so that 16 workers stay evenly loaded (numba compiles
+                    # the stress chain once per worker process, ~25 s, not once per unit)
+                    for hs_set in ([HS] if tier == "quick" else [[h] for h in HS]):
+                        tag = "" if tier == "quick" else f":hs={hs_set[0]}"
+                        us.append({"name": f"janssen:{g}:{sh}:depth={dep}:width={w}{tag}", "kind": "janssen", "grid": g,
+                                   "shape": sh, "depth": dep, "width": w, "means": ax["means"], "hs": hs_set,
+                                   "cost": 50})
     return us
 
 
@@ -341,7 +348,7 @@ def run_janssen(unit):
     from ocean_science_utilities.wavephysics.roughness import janssen_roughness_length
 
     c = Collector()
-    g, shape, depth, width = unit["grid"], unit["shape"], unit["depth"], unit["width"]
+    g, shape, depth, width = unit["grid"], unit["shape"], float(unit["depth"]), unit["width"]  # "inf" after a replay
     dkey = "inf" if math.isinf(depth) else depth  # json-friendly, matchable from KNOWN_FINDINGS.json
     f, d = grid_axes(g)
     balance = create_balance("st4", "st4")
@@ -349,7 +356,7 @@ def run_janssen(unit):
     zscan = np.exp(LOGZ)
     worst = 0.0
 
-    for hs in HS:
+    for hs in unit["hs"]:
         for fp in FP:
             for mean in unit["means"]:
                 E = frequency_shape(shape, f, fp, hs)[:, None] * raised_cosine(d, mean, width)[None, :]
